@@ -151,7 +151,11 @@ Proof.
   - apply bind_ok in Ha as (x & Hx & Ha). inversion Ha; subst. destruct f as [|f]; [lia|]. cbn [Serde.ser_ty] in Hs.
     destruct v; try discriminate. destruct (opt_map (ser_ty t) l) as [js|] eqn:Hl; [|discriminate]. inversion Hs; subst.
     cbn [TsSem.memberb]. eapply opt_map_forallb; [exact Hl|]. intros y z _ Hy. eapply IH; [exact Hok|exact Hy|exact Hx|lia].
-  - apply bind_ok in Ha as (x & Hx & Ha). inversion Ha; subst. destruct f as [|f]; [lia|]. cbn [Serde.ser_ty] in Hs.
+  - destruct n as [|n'].
+    { inversion Ha; subst. destruct f as [|f]; [lia|]. cbn [Serde.ser_ty] in Hs. destruct v; try discriminate.
+      destruct l as [|y l]; [|discriminate]. cbn in Hs. inversion Hs. reflexivity. }
+    cbn [Gen.name_of] in Ha. remember (S n') as n eqn:Hn. clear Hn n'.
+    apply bind_ok in Ha as (x & Hx & Ha). inversion Ha; subst. destruct f as [|f]; [lia|]. cbn [Serde.ser_ty] in Hs.
     destruct v; try discriminate. destruct (Nat.eqb (length l) n) eqn:Hlen; [|discriminate]. apply Nat.eqb_eq in Hlen.
     destruct (opt_map (ser_ty t) l) as [js|] eqn:Hl; [|discriminate]. inversion Hs; subst.
     assert (Hall : forallb (memberb f x) js = true).
